@@ -70,11 +70,26 @@ class FakeExec:
                 os.remove(os.path.join(cwd, fn))
             except FileNotFoundError:
                 pass
-        for handle, text in ((stdout, act.get("out", "")), (stderr, act.get("err", ""))):
-            if handle is not None and handle is not subprocess.DEVNULL and hasattr(handle, "write") and text:
-                handle.write(text)
+        # what subprocess.run does with the program's output: written to the handle it was given (text or binary), or -
+        # with capture_output / PIPE - handed back in the CompletedProcess (str when a text mode was asked for)
+        textmode = bool(encoding or kw.get("text") or kw.get("universal_newlines") or kw.get("errors"))
+        captured = {}
+        if kw.get("capture_output"):
+            stdout = stderr = subprocess.PIPE
+        for which, handle, text in (("stdout", stdout, act.get("out", "")), ("stderr", stderr, act.get("err", ""))):
+            if handle is subprocess.PIPE:
+                captured[which] = text if textmode else text.encode()
+            elif handle is subprocess.STDOUT and which == "stderr":
+                if stdout is subprocess.PIPE:
+                    captured["stdout"] = captured.get("stdout", "" if textmode else b"") + (text if textmode else text.encode())
+                elif hasattr(stdout, "write") and text:
+                    stdout.write(text if not isinstance(stdout, (io.RawIOBase, io.BufferedIOBase)) else text.encode())
+            elif handle is not None and handle is not subprocess.DEVNULL and hasattr(handle, "write") and text:
+                handle.write(text if not isinstance(handle, (io.RawIOBase, io.BufferedIOBase)) else text.encode())
                 handle.flush()
-        return subprocess.CompletedProcess(argv, act.get("rc", 0))
+        if kw.get("check") and act.get("rc", 0) != 0:
+            raise subprocess.CalledProcessError(act.get("rc", 0), argv, output=captured.get("stdout"), stderr=captured.get("stderr"))
+        return subprocess.CompletedProcess(argv, act.get("rc", 0), stdout=captured.get("stdout"), stderr=captured.get("stderr"))
 
 
 # ---------------------------------------------------------------------------------- the _molli_run child
